@@ -587,7 +587,7 @@ theorem shiftedOK_of_int {tok : Token} {r : List Node × Str} {a b : Nat} (h : I
 /-- **the contract of word expansion**: if the nested parser keeps its contract, `expandword`
     returns a word node at the token's span that is fine, lies within the token, and holds no
     pending redirect -/
-theorem wordContract (hT : TokSpans TI) : WordContract TI := by
+theorem wordContract_act (hT : TokAct TI) : WordContract TI := by
   intro np hnp len F st tok
   unfold expandword
   simp only []
@@ -616,6 +616,8 @@ theorem wordContract (hT : TokSpans TI) : WordContract TI := by
   split
   · exact Keeps.bind (Keeps.foreign (Φ := fun _ => False) trivial) (fun _ h => h.elim)
   · exact Keeps.bind (Keeps.pure (Φ := fun _ => True) trivial) (fun _ _ => hfin _)
+
+theorem wordContract (hT : TokSpans TI) : WordContract TI := wordContract_act hT.act
 
 end
 end Bashlex.C03
